@@ -40,6 +40,7 @@ const (
 var (
 	errTxExist                  = errors.New("tx already exist in cache")
 	errTxPoolWaitingQueueIsFull = errors.New("evm tx pool waiting queue is full")
+	errTxNonceAlreadyPending    = errors.New("another tx with this nonce is already pending")
 )
 
 type ethTxPool struct {
@@ -281,6 +282,12 @@ func (tp *ethTxPool) CheckAndAdd(tx *etypes.Transaction, rawTx types.Tx) error {
 	tp.all[tx.Hash()] = rawTx
 	if currentNonce == tx.Nonce() {
 		tp.promoteExecutables([]common.Address{from})
+		if _, kept := tp.all[tx.Hash()]; !kept {
+			// promotion dropped it: another transaction with this nonce is already pending.
+			// The transaction is not in the pool, so the caller must not treat it as accepted
+			// (ReceiveTx would announce it to the peers, who would do the same, for ever).
+			return errTxNonceAlreadyPending
+		}
 	}
 	return nil
 }
